@@ -382,8 +382,8 @@ def enc_label(rng, s, n):
     opts = ['short', 'long']
     if l and s in ('0' * l, '1' * l):
         opts += ['same', 'same']
-    if l == 0:
-        opts = ['short', 'long']
+    if w == 0:
+        opts = ['short']         # n = 0: the library's label reader does load_uint(0), which raises (non-canonical form anyway; C10's business)
     o = rng.choice(opts)
     if o == 'short':
         return '0' + '1' * l + '0' + s
